@@ -24,7 +24,7 @@ var otelOverride bool
 
 func init() {
 	Register(&Prop{
-		ID: "C12", Engine: "A", Quick: 3000, Thorough: 150000, Level: "exploration",
+		ID: "C12", Engine: "A", Quick: 3000, Thorough: 150000, Level: "exploration", AltEvery: 4,
 		Rule:     "race build of the simulator (go test -race; the scheduler's own hand-offs are hidden from the detector with runtime.RaceDisable so that they add no happens-before edges): each run plays one scenario of the C03 (responses with telemetry), C04 (faults), C09 (streamed insert with progress), C10 (cancellation) or C11 (pool users and health checker) families, or a query with Client.Close called from a foreign goroutine at a drawn decision, with OpenTelemetry instrumentation on or off, under a seeded schedule; a violation is a race report whose two accesses both have their innermost frame in the library; distinct = schedule digests; non-trivial = at least one context switch",
 		Run:      runC12,
 		OnStderr: racesFromStderr,
